@@ -1025,3 +1025,131 @@ func scenC18Legacy(k *K) {
 	k.Notes["subscribers"] = len(subs)
 	k.Notes["nontrivial"] = early > 0
 }
+
+func init() {
+	Register(&Scenario{Prop: "C18", Name: "cache-manager-lifecycle", Run: scenC18CacheLifecycle, Weight: 1,
+		Rule: "one instance on the repository's own cache manager (cacheleveldown, leveldb in memory, inside the bubble); 2-3 databases with a few entries; 3-8 lifecycle calls, 1-3 of them under way at the same time, drawn from {close a store, open a closed database again, drop a database through its current or through an earlier (closed) handle, write to a store}; then the instance is closed (sometimes while calls are still under way); oracle: every call returns within 30 virtual seconds and none panics; 15 virtual seconds after the instance was closed no goroutine created in go-orbit-db packages is left; non-trivial = at least one Drop or reopen ran while another call was under way"})
+}
+
+func scenC18CacheLifecycle(k *K) {
+	z, err := k.StartPeer(k.W.AddNode(), WithRealMemoryCache())
+	if err != nil {
+		panic(abortPanic{err.Error()})
+	}
+	no := false
+	type rec struct {
+		addr    string
+		cur     iface.Store
+		handles []iface.Store
+		closing bool // Close or Drop of cur has been called (it may still be under way)
+	}
+	var dbs []*rec
+	for d, m := 0, k.C.Range(2, 3); d < m; d++ {
+		typ := []string{"keyvalue", "eventlog", "docstore"}[k.C.Intn(3)]
+		op := k.Do(0, "create", 100, func() (interface{}, error) {
+			ctx, cancel := OpCtx(time.Minute)
+			defer cancel()
+			return z.DB.Create(ctx, fmt.Sprintf("db%d", d), typ, &orbitdb.CreateDBOptions{Replicate: &no})
+		})
+		if !op.Done || op.Err != nil {
+			panic(abortPanic{fmt.Sprint(op.Err)})
+		}
+		r := &rec{cur: op.Val.(iface.Store)}
+		r.addr = r.cur.Address().String()
+		r.handles = []iface.Store{r.cur}
+		dbs = append(dbs, r)
+		for j, n := 0, k.C.Range(0, 2); j < n; j++ {
+			st, val := r.cur, fmt.Sprintf("d%d.%d", d, j)
+			k.Do(0, "write "+val, 20, func() (interface{}, error) {
+				ctx, cancel := OpCtx(time.Minute)
+				defer cancel()
+				return c09Write(ctx, st, val)
+			})
+		}
+	}
+	overlapping := false
+	var inflight []*Op
+	settle := func(all bool) {
+		var keep []*Op
+		for _, o := range inflight {
+			for j := 0; j < 60 && !k.IsDone(o) && all; j++ {
+				k.Step()
+			}
+			if !k.IsDone(o) && all {
+				k.Tick(35 * time.Second)
+			}
+			if !k.IsDone(o) {
+				if all {
+					k.Failf("C18/lifecycle-hang", "%q on an instance that uses the leveldb cache manager did not return within 30 virtual seconds (calls under way at the same time: %d)", o.Name, len(inflight))
+				}
+				keep = append(keep, o)
+			}
+		}
+		inflight = keep
+	}
+	for i, m := 0, k.C.Range(3, 8); i < m; i++ {
+		r := dbs[k.C.Intn(len(dbs))]
+		var op *Op
+		switch k.C.Intn(5) {
+		case 0:
+			st := r.cur
+			r.closing = true
+			op = k.Go(0, "close-store", func() (interface{}, error) { return nil, st.Close() })
+		case 1:
+			if !r.closing {
+				// a database is not opened a second time while its store is open (two stores
+				// over one cache are not a supported use)
+				continue
+			}
+			r.closing = false
+			op = k.Go(0, "reopen", func() (interface{}, error) {
+				ctx, cancel := OpCtx(30 * time.Second)
+				defer cancel()
+				st, err := z.DB.Open(ctx, r.addr, &orbitdb.CreateDBOptions{Replicate: &no})
+				if err == nil {
+					r.cur = st
+					r.handles = append(r.handles, st)
+				}
+				return nil, err
+			})
+			overlapping = overlapping || len(inflight) > 0
+		case 2, 3:
+			st := r.handles[k.C.Intn(len(r.handles))]
+			if st == r.cur {
+				r.closing = true
+			}
+			op = k.Go(0, "drop", func() (interface{}, error) { return nil, st.Drop() })
+			overlapping = overlapping || len(inflight) > 0
+		case 4:
+			st, val := r.cur, fmt.Sprintf("w%d", i)
+			op = k.Go(0, "write "+val, func() (interface{}, error) {
+				ctx, cancel := OpCtx(30 * time.Second)
+				defer cancel()
+				return c09Write(ctx, st, val)
+			})
+		}
+		inflight = append(inflight, op)
+		k.Wait()
+		for j, g := 0, k.C.Intn(4); j < g; j++ {
+			k.Step()
+		}
+		settle(len(inflight) >= k.C.Range(1, 3))
+	}
+	if k.C.Chance(1, 2) {
+		settle(true)
+	}
+	cop := k.Go(0, "close-instance", func() (interface{}, error) { return nil, z.DB.Close() })
+	inflight = append(inflight, cop)
+	k.Wait()
+	settle(true)
+	k.Settle(20*time.Second, 400, nil)
+	k.Tick(15 * time.Second)
+	k.Wait()
+	z.Inc.Cancel()
+	k.W.Detach(z.Inc)
+	k.Wait()
+	if left := inBubbleSUTGoroutines(); len(left) > 0 {
+		k.Failf("C18/goroutine-leak/close-instance-nonzero", "15 virtual seconds after closing an instance that uses the leveldb cache manager %d goroutine(s) created in go-orbit-db packages are still alive:\n%s", len(left), strings.Join(left[:min(3, len(left))], "\n\n"))
+	}
+	k.Notes["nontrivial"] = overlapping
+}
